@@ -146,10 +146,11 @@ func drawPESUnit(t *rapid.T, pid uint16, cc *uint8, o streamOpts, label string) 
 }
 
 // drawPSIUnit draws a PSI unit of the given table kind on pid. fixedPAT, when not nil, is used as the (only) section.
-func drawPSIUnit(t *rapid.T, pid uint16, kind int, cc *uint8, o streamOpts, fixed *ref.Section, label string) *unitModel {
+func drawPSIUnit(t *rapid.T, pid uint16, kind int, cc *uint8, o streamOpts, fixed []*ref.Section, label string) *unitModel {
 	u := &unitModel{pid: pid, kind: unitPSI, tableKnd: kind}
+	var foreign [][]byte
 	if fixed != nil {
-		u.sections = []*ref.Section{fixed}
+		u.sections = fixed
 	} else {
 		n := 1
 		if gen.Chance(t, 30, label+"_multi") {
@@ -168,10 +169,20 @@ func drawPSIUnit(t *rapid.T, pid uint16, kind int, cc *uint8, o streamOpts, fixe
 			so = gen.SectionOpts{MaxBody: rapid.IntRange(300, 1000).Draw(t, label+"_mbb"), MaxItems: 20, MaxDescs: 3}
 		}
 		u.sections = append(u.sections, gen.Section(t, kind, so, label+"_last"))
+		if kind >= gen.KindSDT && gen.Chance(t, 25, label+"_foreign") && used < 120 {
+			// a section of a table type the library does not decode shares the unit (TDT before TOT, BAT before SDT, ...)
+			foreign = append(foreign, ref.ForeignSection(ref.ForeignTableIDs[gen.Uniform(t, len(ref.ForeignTableIDs), label+"_ftid")], gen.Bool(t, label+"_fsyn"), true, Bytes30(t, label+"_fbody")))
+		}
 	}
 	var enc [][]byte
 	head := 0
 	for i, s := range u.sections {
+		if i == len(u.sections)-1 {
+			for _, f := range foreign {
+				enc = append(enc, f)
+				head += len(f)
+			}
+		}
 		e := s.Encode()
 		enc = append(enc, e)
 		if i < len(u.sections)-1 {
@@ -193,6 +204,11 @@ func drawPSIUnit(t *rapid.T, pid uint16, kind int, cc *uint8, o streamOpts, fixe
 		u.expect = append(u.expect, d)
 	}
 	return u
+}
+
+// Bytes30 draws 0..30 bytes.
+func Bytes30(t *rapid.T, label string) []byte {
+	return gen.Bytes(t, rapid.IntRange(0, 30).Draw(t, label+"_n"), label)
 }
 
 var siKinds = []int{gen.KindNIT, gen.KindSDT, gen.KindEIT, gen.KindTOT}
@@ -246,9 +262,17 @@ func drawStream(t *rapid.T, o streamOpts) *streamModel {
 			pd.Programs = append([]*astits.PATProgram{{ProgramNumber: 0, ProgramMapID: 0x10}}, pd.Programs...)
 		}
 		pat = &ref.Section{TableID: 0, CurrentNext: true, Version: uint8(gen.EdgeU(t, 5, "patver")), PAT: pd}
+		patSecs := []*ref.Section{pat}
+		if len(pd.Programs) >= 2 && gen.Chance(t, 40, "pat2sections") {
+			// the programme list spread over two sections of the same unit
+			k := 1 + gen.Uniform(t, len(pd.Programs)-1, "patsplit")
+			a := &ref.Section{TableID: 0, CurrentNext: true, Version: pat.Version, Number: 0, Last: 1, PAT: &astits.PATData{TransportStreamID: pd.TransportStreamID, Programs: pd.Programs[:k]}}
+			b := &ref.Section{TableID: 0, CurrentNext: true, Version: pat.Version, Number: 1, Last: 1, PAT: &astits.PATData{TransportStreamID: pd.TransportStreamID, Programs: pd.Programs[k:]}}
+			patSecs = []*ref.Section{a, b}
+		}
 		nu := 1 + gen.Uniform(t, min(o.maxUnits, 3), "npat")
 		for i := 0; i < nu; i++ {
-			add(drawPSIUnit(t, 0, gen.KindPAT, ccOf(0), o, pat, fmt.Sprintf("pat%d", i)))
+			add(drawPSIUnit(t, 0, gen.KindPAT, ccOf(0), o, patSecs, fmt.Sprintf("pat%d", i)))
 		}
 	}
 	pmtList := make([]uint16, 0, len(m.pmtPIDs))
@@ -297,7 +321,27 @@ func drawStream(t *rapid.T, o streamOpts) *streamModel {
 	}
 	if pat != nil {
 		first := m.perPID[0][0]
-		for range first.packets {
+		// the leading packets (never the final one) of a PMT PID's first unit may arrive before the PAT is complete:
+		// the unit is recognised as long as the PAT has been delivered when its final packet is read
+		var early uint16
+		earlyLeft := 0
+		if gen.Chance(t, 30, "pmtearly") {
+			for _, pid := range pmtList {
+				if us := m.perPID[pid]; len(us) > 0 && len(us[0].packets) >= 2 {
+					early, earlyLeft = pid, rapid.IntRange(1, len(us[0].packets)-1).Draw(t, "pmtearlyn")
+					break
+				}
+			}
+		}
+		for i := range first.packets {
+			if earlyLeft > 0 && (i > 0 || gen.Bool(t, "pmtearlyfirst")) {
+				n := rapid.IntRange(1, earlyLeft).Draw(t, "pmtearlyk")
+				for ; n > 0; n-- {
+					emit(queues[early][0])
+					queues[early] = queues[early][1:]
+					earlyLeft--
+				}
+			}
 			emit(queues[0][0])
 			queues[0] = queues[0][1:]
 		}
